@@ -51,6 +51,8 @@ def check(chk, fx):
     # reference summaries (reviewed against the documented syntax)
     golden.group(chk, fx, "REGEXFE", "reference summaries of the regex front end (pattern lexer, character decoding)",
                  goldenreg.GROUPS["REGEXFE"])
+    from .. import termrules
+    termrules.termapi(chk, fx)        # ids / names / data the parser and the lexer builder read
     from .. import stdexrules
     stdexrules.bitset(chk, fx)       # character classes / item and FIRST sets live in cbitset
     lexrules.tag(chk, fx)
